@@ -30,6 +30,7 @@ type Query {
   echo(s: String, b: Boolean): String
   page(p: Page = {size: 2, tags: ["a", "b"]}): String
   res: Res
+  meet: String
 }
 interface Named { name: String }
 type Cat implements Named { name: String nick: String age: Int lives(extra: Int): Int friend: Cat ghost: String }
@@ -47,7 +48,39 @@ type c12Query struct {
 	Named []interface{}
 	First *c12Cat
 	Res   *c12Res
+	meet  chan struct{}
 }
+
+// Meet pairs two requests that are inside the method at the same time: two concurrent calls both
+// answer "met"; a call nobody joins within a second and a half answers "alone". If the library
+// serialised calls of one field, concurrent callers could never meet.
+func (q *c12Query) Meet() string {
+	select {
+	case q.meet <- struct{}{}:
+		return "met"
+	case <-q.meet:
+		return "met"
+	case <-time.After(1500 * time.Millisecond):
+		return "alone"
+	}
+}
+
+// c12Pair runs two {meet} requests at once on a root
+func c12Pair(root *ggql.Root) [2]string {
+	var out [2]string
+	var wg sync.WaitGroup
+	for i := 0; i < 2; i++ {
+		wg.Add(1)
+		go func(i int) {
+			defer wg.Done()
+			out[i] = c12Run(root, c12Req{q: `{meet}`})
+		}(i)
+	}
+	wg.Wait()
+	return out
+}
+
+const c12Met = `{"data":{"meet":"met"}}`
 
 func (q *c12Query) Echo(s string, b bool) string { return fmt.Sprintf("%s/%v", s, b) }
 func (q *c12Query) Page(p map[string]interface{}) string {
@@ -92,7 +125,7 @@ func c12Root() *ggql.Root {
 	tom := &c12Cat{Name: "Tom", Nick: "T", Age: 3}
 	kit := &c12Cat{Name: "Kit", Nick: "K", Age: 1, Friend: tom}
 	rex := &c12Dog{Name: "Rex", Tricks: []string{"sit", "roll"}}
-	q := &c12Query{Cats: []*c12Cat{tom, kit}, Pets: []interface{}{tom, rex, kit}, Named: []interface{}{rex, tom}, First: kit, Res: &c12Res{}}
+	q := &c12Query{Cats: []*c12Cat{tom, kit}, Pets: []interface{}{tom, rex, kit}, Named: []interface{}{rex, tom}, First: kit, Res: &c12Res{}, meet: make(chan struct{})}
 	root := ggql.NewRoot(&c12Schema{Query: q})
 	if err := root.ParseString(c12SDL); err != nil {
 		panic(err)
@@ -124,6 +157,7 @@ var c12Pool = []c12Req{
 	{`{res{a b b3: b(x: 4) list{a list{b}}}}`, nil},
 	{`{__schema{types{name kind fields{name args{name defaultValue} type{name kind ofType{name}}}} directives{name args{name}}}}`, nil},
 	{`{__type(name: "Cat"){name fields{name type{name}} interfaces{name}} u: __type(name: "Pet"){possibleTypes{name}} n: __type(name: "Named"){possibleTypes{name}}}`, nil},
+	{`{__type(name: "Page"){inputFields{name defaultValue}} i: __type(name: "Inner"){inputFields{name defaultValue}}}`, nil},
 	{`{cats{nope}}`, nil},
 	{`{cats{name ghost}}`, nil}, // a field of the schema the Go type has no field or method for
 	{`{cats{name @skip(if: true) nick @include(if: false) age}}`, nil},
@@ -201,6 +235,12 @@ func stress12(dur time.Duration, workers int, seed int64, maxRounds int64) int {
 		case <-time.After(20 * time.Second):
 			fmt.Printf("stress12: FAIL deadlock: a round of %d concurrent requests did not finish in 20s (seed %d round %d, requests %v)\n", n, seed, rounds, picks)
 			return 1
+		}
+		if rounds%50 == 1 {
+			if p := c12Pair(root); p[0] != c12Met || p[1] != c12Met {
+				fmt.Printf("stress12: FAIL two concurrent requests could not be inside the same method at the same time (%s / %s): calls of one field are serialised\n", p[0], p[1])
+				return 1
+			}
 		}
 		// a second, warm wave on the same root
 		for i := 0; i < n; i++ {
@@ -310,6 +350,11 @@ func c12Exec(input sx.S) (obs sx.S) {
 	case <-done:
 	case <-time.After(20 * time.Second):
 		return sx.L("deadlock")
+	}
+	if seed%4 == 0 { // two requests that have to be inside one method at the same time
+		if p := c12Pair(root); p[0] != c12Met || p[1] != c12Met {
+			return sx.L("serialised", sx.Hex(p[0]+" "+p[1]))
+		}
 	}
 	out := []sx.S{"round"}
 	for i := range outs {
